@@ -944,3 +944,31 @@ Print Assumptions C02_rc_edges_inconsistent_refuted.
 Theorem C02_lre_nil_iff : forall (g : its) (rcn : list N), lre g rcn = [] <-> rcn = [].
 Proof. exact lre_nil_iff. Qed.
 Print Assumptions C02_lre_nil_iff.
+
+(** 52. The property text as ONE statement for ITS graphs of ANY label shape (pair labels of ITSConstruction.construct, absent labels)
+        whose standard_order is the order difference: theorems 42, 41, 31, 40, 28 assembled (the chain as bonded pairs: the centre's
+        bonds carry is_mtg = data.get("is_mtg", False)). *)
+Theorem C02_property_statement_S : forall g : sits, wf g ->
+  (forall u v x, In (u, v, x) (gedges g) -> e_std (fst x) = e_G (fst x) - e_H (fst x)) ->
+  (forall u v y, adj (get_rc_S K_default false false g) u v = Some y <->
+                 exists x, adj g u v = Some x /\ (e_G (fst x) <> e_H (fst x) \/ is_hh_g ish_S g u v = true) /\ y = out_edge x) /\
+  (forall n b, label (get_rc_S K_default false false g) n = Some b <->
+               exists a, label g n = Some a /\
+                 (((exists v x, adj g n v = Some x /\ include_x false x = true) /\ b = selS K_default a) \/ (~ (exists v x, adj g n v = Some x /\ include_x false x = true) /\ (exists v x, adj g n v = Some x /\ is_hh_g ish_S g n v = true) /\ b = selS_hh K_default a))) /\
+  geq (get_rc_S K_default false false (get_rc_S K_default false false g)) (get_rc_S K_default false false g) /\
+  (forall f : N -> N, (forall a b, f a = f b -> a = b) ->
+     get_rc_S K_default false false (relabel f g) = relabel f (get_rc_S K_default false false g) /\
+     forall k : Z, extract_k_S_z (relabel f g) k = relabel f (extract_k_S_z g k)) /\
+  (forall k, (1 <= k)%nat ->
+     let Bk := dist_le_g g (node_ids (get_rc_S K_default false false g)) k in
+     (forall n, In n (node_ids (extract_k_S g k)) <-> Bk n) /\
+     (forall n a, label (extract_k_S g k) n = Some a <-> label g n = Some a /\ Bk n) /\
+     (forall u v e, adj (extract_k_S g k) u v = Some e <-> adj g u v = Some e /\ Bk u /\ Bk v)) /\
+  (forall k k', (k <= k')%nat ->
+     extract_k_S g 0 = get_rc_S K_default false false g /\
+     (forall n, In n (node_ids (extract_k_S g k)) -> In n (node_ids (extract_k_S g k'))) /\
+     (forall u v, adj (extract_k_S g k) u v <> None -> adj (extract_k_S g k') u v <> None) /\
+     (forall n, In n (node_ids (extract_k_S g k')) -> In n (node_ids g)) /\
+     (forall u v, adj (extract_k_S g k') u v <> None -> adj g u v <> None)).
+Proof. exact property_statement_S. Qed.
+Print Assumptions C02_property_statement_S.
